@@ -1355,13 +1355,14 @@ type c14Site struct {
 	Kind  string `json:"kind"`
 	Expr  string `json:"expr"`
 	Count int    `json:"count"`
-	Auto  string `json:"auto"`
-	Reach string `json:"reach"`
+	Auto  string   `json:"auto"`
+	Reach string   `json:"reach"`
+	Lines []string `json:"lines"`
 }
 
 // classes whose reason is "no path from block processing": the call graph must agree (thorough tier)
 var c14UnreachableClasses = map[string]bool{"class:vendored-ethash-mining-unreachable": true, "class:simulation-only": true, "class:test-support-only": true,
-	"class:abigen-binding-unreachable": true, "class:cli-or-query-only": true}
+	"class:abigen-binding-unreachable": true, "class:cli-or-query-only": true, "class:startup-wiring": true, "class:startup-configuration": true}
 
 type c14Report struct {
 	Files         int `json:"files"`
@@ -1444,14 +1445,21 @@ func c14Inventory(t *testing.T, r *Rec, repo string) {
 		lines = append(lines, [2]string{key(u) + " none", "uninventoried"})
 		r.Count("site.uninventoried")
 		r.Find(Finding{Sig: fmt.Sprintf("C14:uninventoried-nondeterminism-site:%s:%s:%s", u.File, u.Func, u.Kind),
-			What: fmt.Sprintf("new order-/environment-dependent site without discharge: %s in %s %s: %s", u.Kind, u.File, u.Func, u.Expr),
-			Ops:  []string{key(u) + " none"}, Obs: "site present, no matching entry in props/sites-C14.json and body not syntactically order-independent",
+			What: fmt.Sprintf("new order-/environment-/process-dependent site without discharge: %s in %s %s: %s %s", u.Kind, u.File, u.Func, u.Expr, strings.Join(u.Lines, " ")),
+			Ops:  []string{key(u) + " none"}, Obs: "site present" + c14At(u.Lines) + ", no matching entry in props/sites-C14.json and body not syntactically order-independent",
 			Req: "a Lean theorem of order-independence or a class with a reason"})
 	}
 	sort.Slice(lines, func(i, j int) bool { return lines[i][0] < lines[j][0] })
 	for _, l := range lines {
 		r.Op(l[0], l[1])
 	}
+}
+
+func c14At(lines []string) string {
+	if len(lines) == 0 {
+		return ""
+	}
+	return " at " + strings.Join(lines, ", ")
 }
 
 func TestC14(t *testing.T) {
@@ -1470,6 +1478,8 @@ func TestC14(t *testing.T) {
 			c14Pair(t, r, 0, ops, repo)
 		case strings.HasPrefix(ops[0], "site ") || ops[0] == "inventory":
 			c14Inventory(t, r, repo)
+		case strings.HasPrefix(ops[0], "replica "):
+			c14Replicas(t, r, 2, strings.Fields(ops[0])[1])
 		default:
 			p := newC14Probes()
 			for _, op := range ops {
@@ -1499,6 +1509,12 @@ func TestC14(t *testing.T) {
 		c14RunProbes(r, probes, 300)
 	} else {
 		c14RunProbes(r, probes, 60)
+	}
+	// replica differential: same committed state, different process histories, identical next block
+	if r.Tier == "thorough" {
+		c14Replicas(t, r, 4, "")
+	} else {
+		c14Replicas(t, r, 2, "")
 	}
 	var scripts [][]string
 	for _, h := range corpusOps("C14") {
